@@ -208,6 +208,19 @@ def run(ctx):
         ds = [d for d in DEVS if k in by_dev[d]]
         return ds or sorted(DEVS)
 
+    # Publication races.  The model orders the initialisation of fresh memory (treasure.New: location alloc; the bytes of a
+    # new body: location body) with its readers only through the publication edges pub / cpub, which are missing exactly
+    # where a deviation leaks an unsynchronised pointer.  WHICH function then touches the memory first is not a property of
+    # the lock discipline (any code that handles the leaked pointer can be the reader), so for these initialiser sites the
+    # reader side is a wildcard: such a race is attributed to the deviations that predict races with that initialiser.
+    initialisers = {}
+    for k, e in predicted.items():
+        if e["locs"] & {"alloc", "body"}:
+            w = [s_ for s_ in k if s_[1] == "W"]
+            if len(w) == 1:
+                initialisers.setdefault(w[0][0], set()).update(devs_of(k))
+    ctx.extra["initialiser_sites"] = {k: sorted(v) for k, v in initialisers.items()}
+
     # ------------------------------------------------------------------ 2. the op mixes TLC ranks
     racy_path_pairs = set()
     for e in predicted.values():
@@ -332,6 +345,14 @@ def run(ctx):
             what = "data race between %s (%s) and %s (%s) on %s: predicted by the as-built lock-discipline model under %s" % (
                 key[0][0], key[0][1], key[1][0], key[1][1], sorted(predicted[key]["locs"]), "+".join(ds))
             ctx.deviation(fid, what, dict(kind="race", pair=key, mix=o["mix"], raw=o["raw"]))
+        elif any(s_[1] == "W" and s_[0] in initialisers for s_ in key) and any(s_[1] == "R" for s_ in key):
+            wsite = next(s_[0] for s_ in key if s_[1] == "W" and s_[0] in initialisers)
+            ds = sorted(initialisers[wsite])
+            fid = next((DEVS[d] for d in ds if d in open_devs), None)
+            new_pairs.add(key)
+            ctx.extra.setdefault("publication_races_with_unlisted_reader", []).append([list(key[0]), list(key[1])])
+            ctx.deviation(fid, "data race between the initialisation in %s and a read in %s: a pointer published without synchronisation (%s) reached a reader the model does not list" % (
+                wsite, next(s_[0] for s_ in key if s_[1] == "R"), "+".join(ds)), dict(kind="race", pair=key, mix=o["mix"], raw=o["raw"]))
         else:
             unpredicted[key] = o
             why = "the strict AND the as-built model say these two sites are protected" if key in protected else "the model has no conflicting access for these two sites"
